@@ -26,6 +26,7 @@ import (
 func c08Endings(p *load.Program, r *core.Report, machines []*ssa.Function) {
 	rule6 := "C08.S6 shutdown-causes"
 	rule7 := "C08.S7 self-termination-only-when-empty"
+	r.Floor("C08.S15 empty-supervisor-terminates-only-with-autoshutdown", 10)
 	r.Floor(rule6, 9)
 	r.Floor(rule7, 15)
 	actTerminate := int64(-1)
@@ -164,6 +165,81 @@ func c08Endings(p *load.Program, r *core.Report, machines []*ssa.Function) {
 			inst := "the supervisor terminates itself only when no child is running / none is left to wait for"
 			if len(empties) > 0 && edgesDominate(empties, in) {
 				r.OK(rule7, key, fn, p.Pos(in.Pos()), inst, "dominated by an emptiness edge of the running / wait set")
+				// S15: ... and for a reason: the exit of a non-child, a significant child, the shutdown in
+				// progress, the exceeded intensity — or, merely because nobody is left, only with auto shutdown on
+				rule15 := "C08.S15 empty-supervisor-terminates-only-with-autoshutdown"
+				key15 := fmt.Sprintf("C08.S15|%s|terminate#%d", fn, seq)
+				inst15 := "a supervisor left without running children terminates itself only for a cause or when auto shutdown is enabled"
+				cause := ""
+				eachInstr(f, func(x ssa.Instruction) {
+					if cause != "" {
+						return
+					}
+					switch v := x.(type) {
+					case *ssa.UnOp:
+						if v.Op != token.MUL {
+							return
+						}
+						_, fl := fieldOwner(v.X)
+						switch fl {
+						case "Significant", "autoshutdown", "shutdown":
+							if t, _, _ := boolEdges(v); len(t) > 0 && edgesDominate(t, in) {
+								cause = fl
+							}
+						case "mode":
+							if refs := v.Referrers(); refs != nil {
+								for _, rf := range *refs {
+									if b, ok := rf.(*ssa.BinOp); ok && b.Op == token.EQL {
+										if c, okc := constInt(b.Y); okc && c == 3 {
+											if t, _, _ := boolEdges(b); len(t) > 0 && edgesDominate(t, in) {
+												cause = "shutdown mode"
+											}
+										}
+									}
+								}
+							}
+						}
+					case *ssa.Phi:
+						// a local flag: constants merged through (loop-carried) phis
+						var flagOnly func(x ssa.Value, seen map[ssa.Value]bool) bool
+						flagOnly = func(x ssa.Value, seen map[ssa.Value]bool) bool {
+							if _, ok := constBool(x); ok {
+								return true
+							}
+							ph, ok := x.(*ssa.Phi)
+							if !ok {
+								return false
+							}
+							if seen[ph] {
+								return true
+							}
+							seen[ph] = true
+							for _, e := range ph.Edges {
+								if !flagOnly(e, seen) {
+									return false
+								}
+							}
+							return true
+						}
+						allConst := v.Type().String() == "bool" && flagOnly(v, map[ssa.Value]bool{})
+						if allConst {
+							if _, fl, _ := boolEdges(v); len(fl) > 0 && edgesDominate(fl, in) {
+								cause = "exit of a process that is not a child"
+							}
+						}
+					case *ssa.Extract:
+						if c, ok := v.Tuple.(*ssa.Call); ok && callsNamed(c, "supCheckRestartIntensity") && v.Index == 1 {
+							if t, _, _ := boolEdges(v); len(t) > 0 && edgesDominate(t, in) {
+								cause = "restart intensity exceeded"
+							}
+						}
+					}
+				})
+				if cause != "" {
+					r.OK(rule15, key15, fn, p.Pos(in.Pos()), inst15, "cause: "+cause)
+				} else {
+					r.Bad(rule15, key15, fn, p.Pos(in.Pos()), inst15, "the Terminate action is produced merely because no child is running, without consulting the auto shutdown option: with DisableAutoShutdown the supervisor is documented to keep running with no children (they can be started again with StartChild)")
+				}
 			} else {
 				r.Bad(rule7, key, fn, p.Pos(in.Pos()), inst, "the Terminate action is produced on a path that did not find the running set (or the wait set) empty: the supervisor exits while children run and leaves them to their parent-exit")
 			}
@@ -865,4 +941,123 @@ func allowedSkipCondition(c ssa.Value, f *ssa.Function) bool {
 		return false
 	}
 	return (isElemField(b.X) && isZeroOrParam(b.Y)) || (isElemField(b.Y) && isZeroOrParam(b.X))
+}
+
+// c08WaitBookkeeping: S13 — a pid that is put into the wait set is taken out again when that
+// process's termination is processed, whatever mode the machine is in: besides its own termination
+// a machine also parks the children it stops for DisableChild there. Where any function other than
+// childTerminated inserts into the wait set, childTerminated deletes the terminated pid on every
+// path; otherwise the stale entry keeps a later restart or the supervisor's own termination
+// waiting for ever.
+func c08WaitBookkeeping(p *load.Program, r *core.Report, machines []*ssa.Function) {
+	rule := "C08.S13 wait-set-entry-removed-at-termination"
+	r.Floor(rule, 2)
+	for _, f := range machines {
+		rt := f.Signature.Recv()
+		if rt == nil {
+			continue
+		}
+		recvName := namedOf(rt.Type())
+		insertsElsewhere := ""
+		for _, g := range funcsOfPkgs(p, "act") {
+			if g == f || root(g).Signature.Recv() == nil || namedOf(root(g).Signature.Recv().Type()) != recvName {
+				continue
+			}
+			eachInstr(g, func(in ssa.Instruction) {
+				if mu, ok := in.(*ssa.MapUpdate); ok {
+					if _, path, okp := fieldPath(mu.Map); okp && len(path) > 0 && path[len(path)-1] == "wait" {
+						insertsElsewhere = fname(g)
+					}
+				}
+			})
+		}
+		if insertsElsewhere == "" {
+			continue
+		}
+		fn := fname(f)
+		key := "C08.S13|" + fn
+		inst := "the terminated pid is deleted from the wait set on every path (the set is also filled by " + insertsElsewhere + ")"
+		pidPar := paramOfType(f, "gen.PID", 0)
+		isDel := func(in ssa.Instruction) bool {
+			cc := callCommon(in)
+			if cc == nil {
+				return false
+			}
+			b, ok := cc.Value.(*ssa.Builtin)
+			if !ok || b.Name() != "delete" || len(cc.Args) != 2 {
+				return false
+			}
+			_, path, okp := fieldPath(cc.Args[0])
+			if !okp || len(path) == 0 || path[len(path)-1] != "wait" {
+				return false
+			}
+			return pidPar == nil || cc.Args[1] == ssa.Value(pidPar) || isParamValue(cc.Args[1], pidPar)
+		}
+		if hit := reaches([]Point{{f.Blocks[0], 0}}, isDel, isReturn); hit != nil {
+			r.Bad(rule, key, fn, p.Pos(hit.Pos()), inst, "the return at "+p.Pos(hit.Pos())+" is reachable without delete(wait, pid): a child stopped by DisableChild stays in the wait set after it terminated — the next group restart waits for it for ever (nothing is started again), the supervisor's own termination never completes")
+		} else {
+			r.OK(rule, key, fn, p.Pos(f.Pos()), inst, "delete(wait, pid) on every path from the entry to a return")
+		}
+	}
+}
+
+// c08DisableMarks: S14 — DisableChild of a known child marks its spec disabled on every successful
+// path, also when the child is not running at that moment ("a disabled child stays down" includes
+// the next restart of the group).
+func c08DisableMarks(p *load.Program, r *core.Report) {
+	rule := "C08.S14 disable-marks-the-spec"
+	r.Floor(rule, 3)
+	for _, f := range funcsOfPkgs(p, "act") {
+		if f.Parent() != nil || f.Name() != "childDisable" || f.Signature.Recv() == nil {
+			continue
+		}
+		fn := fname(f)
+		isMark := func(in ssa.Instruction) bool {
+			st, ok := in.(*ssa.Store)
+			if !ok {
+				return false
+			}
+			if _, fl := fieldOwner(st.Addr); fl != "disabled" {
+				return false
+			}
+			b, okb := constBool(st.Val)
+			return okb && b
+		}
+		// edges on which the spec is already disabled
+		var already []Edge
+		eachInstr(f, func(in ssa.Instruction) {
+			ld, ok := in.(*ssa.UnOp)
+			if !ok || ld.Op != token.MUL {
+				return
+			}
+			if _, fl := fieldOwner(ld.X); fl != "disabled" {
+				return
+			}
+			t, _, _ := boolEdges(ld)
+			already = append(already, t...)
+		})
+		n := 0
+		var bad []string
+		eachInstr(f, func(in ssa.Instruction) {
+			rt, ok := in.(*ssa.Return)
+			if !ok || len(rt.Results) != 2 || errKind(rt.Results[1]) != "nil" {
+				return
+			}
+			n++
+			if len(already) > 0 && edgesDominate(already, in) {
+				return
+			}
+			// every path from the entry to this return passes the mark
+			if hit := reaches([]Point{{f.Blocks[0], 0}}, isMark, func(x ssa.Instruction) bool { return x == in }); hit != nil {
+				bad = append(bad, p.Pos(in.Pos()))
+			}
+		})
+		key := "C08.S14|" + fn
+		inst := "every successful return of DisableChild has marked the spec disabled (or found it disabled)"
+		if len(bad) > 0 {
+			r.Bad(rule, key, fn, p.Pos(f.Pos()), inst, "success is returned at "+strings.Join(bad, ", ")+" without disabled = true: a child that is not running at that moment is not disabled and comes back with the next restart of the group")
+		} else {
+			r.OK(rule, key, fn, p.Pos(f.Pos()), inst, fmt.Sprintf("%d successful return(s), each behind the mark or the already-disabled edge", n))
+		}
+	}
 }
